@@ -7,6 +7,7 @@ use crate::bfs::*;
 use crate::common::*;
 use crate::gen::*;
 use abasic_core::verif::VerifState;
+use rayon::prelude::*;
 use serde_json::json;
 use std::collections::HashSet;
 
@@ -83,6 +84,12 @@ fn common_events() -> Vec<Ev> {
     v
 }
 
+/// Statements that fail half way (a READ refused for its target, for the item's type, for want of
+/// items): used by the unmerged pass only, where what they leave behind cannot be merged away.
+fn residue_events() -> Vec<Ev> {
+    ["READ A(0-1)", "25 DATA \"s\"", "READ Q,Q,Q", "READ Q"].iter().map(|l| Ev::Line(l.to_string())).collect()
+}
+
 /// Spellings of the command (text after the word is ignored by the command processor).
 const RUN_SPELLINGS: [&str; 3] = ["RUN", "run", "RUN 30"];
 
@@ -105,6 +112,7 @@ pub fn run(thorough: bool) -> Report {
     let mut total_states = 0u64;
     let mut total_trans = 0u64;
     let mut probes = 0u64;
+    let mut unmerged = 0u64;
     let mut covs = vec![];
     let mut seen = HashSet::new();
     for p in programs() {
@@ -210,6 +218,55 @@ pub fn run(thorough: bool) -> Report {
         if viol.is_empty() && stats.events_enabled.len() < alpha.len() {
             machinery("vacuous: not every history event was enabled");
         }
+        // Unmerged short histories: the search above probes a state once, whichever history reached
+        // it first; what a history leaves behind outside the canonical snapshot (a parked item, a
+        // cached position) would be merged away. Every history of <= k events is probed here,
+        // without any merging.
+        let mut viol = viol;
+        {
+            let k = if thorough { 3 } else { 2 };
+            let mut alpha = alpha.clone();
+            for e in residue_events() {
+                if !alpha.contains(&e) {
+                    alpha.push(e);
+                }
+            }
+            let mut layer: Vec<Vec<Ev>> = vec![root.clone()];
+            for _ in 0..k {
+                let next: Vec<(Vec<Ev>, Option<VerifState>)> = layer
+                    .par_iter()
+                    .flat_map_iter(|h| {
+                        let st = replay(&mk, h).state();
+                        let mut out = vec![];
+                        for e in &alpha {
+                            if !enabled(st, e) {
+                                continue;
+                            }
+                            let mut s = replay(&mk, h);
+                            let r = s.apply(e);
+                            if matches!(r, CallResult::Panic(_)) {
+                                continue;
+                            }
+                            let mut h2 = h.clone();
+                            h2.push(e.clone());
+                            let snap = guarded(|| s.it.verif_snapshot()).ok();
+                            out.push((h2, snap));
+                        }
+                        out.into_iter()
+                    })
+                    .collect();
+                let pv: Vec<Violation> = next
+                    .par_iter()
+                    .flat_map_iter(|(h, snap)| match snap {
+                        Some(sn) => probe(h, sn).into_iter(),
+                        None => vec![].into_iter(),
+                    })
+                    .collect();
+                unmerged += next.len() as u64;
+                viol.extend(pv);
+                layer = next.into_iter().map(|(h, _)| h).collect();
+            }
+        }
         total_states += stats.states;
         total_trans += stats.transitions;
         probes += probe_count.load(std::sync::atomic::Ordering::Relaxed);
@@ -228,6 +285,7 @@ pub fn run(thorough: bool) -> Report {
         "transitions": total_trans + probes,
         "traces_validated_against_impl": probes,
         "probes_in_distinct_idle_states": probes,
+        "unmerged_short_histories_probed": unmerged,
         "depth_bound": depth,
         "per_program": covs,
         "exhaustive": true,
